@@ -182,6 +182,8 @@ func (e *childEnv) sync() {
 		dg := "-"
 		if t == pos.TXID {
 			dg = d
+		} else if _, err := os.Stat(e.db.LTXPath(0, t, t)); err != nil {
+			continue // after a reset the local tree restarts at the replica's position
 		}
 		e.ackf("l0", t, dg, e.db.LTXPath(0, t, t))
 	}
@@ -321,6 +323,32 @@ func (e *childEnv) baseline() {
 	e.upload()
 }
 
+// resetLocal: DB.ResetLocalState on the OPEN database removes the whole local
+// LTX tree (RemoveAll); the next sync re-creates the directories.
+func (e *childEnv) resetLocal() {
+	must(e.db.ResetLocalState(e.ctx), "ResetLocalState")
+	e.lastLocal = 0
+	e.note("reset")
+}
+
+// fetchBaseline runs the behind-replica check on the OPEN database (it removes
+// and re-creates the local L0 directory and fetches the replica's latest L0).
+func (e *childEnv) fetchBaseline() bool {
+	type hook interface {
+		VerifCheckDatabaseBehindReplica(context.Context) error
+	}
+	h, ok := any(e.db).(hook)
+	if !ok {
+		e.note("nohook")
+		return false
+	}
+	must(os.MkdirAll(e.db.MetaPath(), 0o755), "mkdir meta")
+	must(h.VerifCheckDatabaseBehindReplica(e.ctx), "checkDatabaseBehindReplica")
+	e.ackf("base", e.lastRemote, "-", e.db.LTXPath(0, e.lastRemote, e.lastRemote))
+	e.lastLocal = e.lastRemote
+	return true
+}
+
 // script runs one named deterministic script; prm are its integer parameters
 // drawn by the parent from the seeded PRNG.
 func runChild(script, dir string, seed int64, prm []int) {
@@ -433,6 +461,53 @@ func runChild(script, dir string, seed int64, prm []int) {
 		e.upload()
 		e.baseline()
 		e.restore(e.lastRemote)
+	case "reset":
+		// one OPEN DB: publishes, local tree removed, publishes into the re-created directories
+		for i := 0; i < rounds; i++ {
+			round()
+		}
+		e.upload()
+		e.resetLocal()
+		for i := 0; i < 3; i++ {
+			e.write(1+e.r.Intn(2), 30+e.r.Intn(200))
+			e.sync()
+		}
+	case "resetfetch":
+		// one OPEN DB: publishes, local tree removed, baseline fetched (RemoveAll+MkdirAll of
+		// the L0 directory), then further publishes into that directory
+		for i := 0; i < rounds; i++ {
+			round()
+		}
+		e.upload()
+		e.resetLocal()
+		if e.fetchBaseline() {
+			for i := 0; i < 3; i++ {
+				e.write(1+e.r.Intn(2), 30+e.r.Intn(200))
+				e.sync()
+				e.upload()
+			}
+			e.restore(e.lastRemote)
+		}
+	case "rerestore":
+		// restore, remove the output directory, restore into the re-created directory;
+		// compaction and retention empty replica level directories in between
+		e.db.L0Retention = time.Nanosecond
+		for i := 0; i < rounds; i++ {
+			round()
+		}
+		e.upload()
+		e.restore(e.lastRemote)
+		must(os.RemoveAll(filepath.Join(e.dir, restoreDir)), "remove restore dir")
+		e.snapshot()
+		e.compact(1)
+		round()
+		e.upload()
+		e.compact(1)
+		e.retention()
+		e.restore(e.lastRemote)
+		e.sidecar(e.lastRemote)
+		must(os.RemoveAll(filepath.Join(e.dir, restoreDir)), "remove restore dir")
+		e.sidecar(e.lastRemote)
 	default:
 		must(fmt.Errorf("unknown script %q", script), "script")
 	}
